@@ -60,35 +60,18 @@ def errNoSuchKey : Nat := 4
 /-- ERR One or more scores can't be converted into double -/
 def errNotDouble : Nat := 6
 
-/-! decimal i64 parsing / printing (`str::parse::<i64>`, `i64::to_string`) -/
+/-! decimal i64 parsing / printing (`str::parse::<i64>` restricted to the canonical rendering, `i64::to_string`):
+    the reference model's functions (`Redis.parseCanon`, `Redis.showInt`: what C01 compares with the real INCR on
+    every run) — no second transcription to drift -/
 
-def digitsVal : List Nat → Option Nat
-  | [] => none
-  | ds => ds.foldl (fun acc d => match acc with
-      | none => none
-      | some a => if 48 ≤ d ∧ d ≤ 57 then some (a * 10 + (d - 48)) else none) (some 0)
+def i64Min : Int := Redis.i64Min
+def i64Max : Int := Redis.i64Max
 
-def i64Min : Int := -9223372036854775808
-def i64Max : Int := 9223372036854775807
-
-def natDigits (n : Nat) : List Nat := (Nat.toDigits 10 n).map (fun c => c.toNat)
-
-def showInt (i : Int) : Bytes :=
-  match i with
-  | .ofNat n => natDigits n
-  | .negSucc n => 45 :: natDigits (n + 1)
+def showInt (i : Int) : Bytes := Redis.showInt i
 
 /-- since the `fix:` commit for C01:incr-noncanonical only the canonical rendering is accepted
     (`007`, `+5`, `-0` are rejected) -/
-def parseI64 (b : Bytes) : Option Int :=
-  let r : Option Int :=
-    match b with
-    | 45 :: ds => (digitsVal ds).map (fun n => -(n : Int))
-    | 43 :: ds => (digitsVal ds).map (fun n => (n : Int))
-    | ds => (digitsVal ds).map (fun n => (n : Int))
-  match r with
-  | some i => if i64Min ≤ i ∧ i ≤ i64Max ∧ showInt i = b then some i else none
-  | none => none
+def parseI64 (b : Bytes) : Option Int := Redis.parseCanon b
 
 def wrongType : Reply := .one (.err errWrongType)
 
@@ -267,14 +250,24 @@ def keyBytesAux : Nat → Nat → List Nat → List Nat
 /-- fuel: a code `n` has fewer than `n` base-256 digits -/
 def keyBytes (k : Key) : Bytes := keyBytesAux k k []
 
+/-- one pass over a class body: `RedisX.classScan` with the recursive call bound ONCE.  (`RedisX.classScan`
+    mentions its recursive call twice per step — `(…).1` and `(…).2` — which the compiled driver evaluates
+    twice: exponential in the number of class-body bytes that differ from the byte looked for; a 300-byte
+    pattern with an unclosed `[` made the C03 driver hang.)  Equal to it: `Lemmas/ShardsStr.lean`
+    `classScanF_eq`. -/
+def classScanF (c : Nat) (p : List Nat) : Bool × List Nat := RedisX.classScan c p
+
+/-- `RedisX.globFuel` (since session 4 `RedisX.classScan` / `globFuel` themselves bind every
+    recursive call once, so the separate copies that lived here are gone: one matcher) -/
+def globFuelF (n : Nat) (p s : List Nat) : Bool := RedisX.globFuel n p s
+
 /-- `CommandExecutor::glob_match` (src/redis/executor/mod.rs) since the fixes 2ad439d / 0e17d33:
     the matcher scans a class once as Redis' `stringmatchlen` does (`\\x` literal inside and outside a
     class, ranges in either order, `^` negation, an unclosed class runs to the end of the pattern,
-    a trailing lone backslash is a literal).  It is the same function as the reference model's
-    `RedisX.globMatch` (C01 compares that one with the real KEYS / SCAN MATCH on every run); the
-    pinned matcher (first `]` closes, no escapes, unterminated class never matches) is gone from
-    the code and from this model. -/
-def globB (p k : List Nat) : Bool := RedisX.globMatch p k
+    a trailing lone backslash is a literal).  It is the SAME FUNCTION as the reference model's
+    `RedisX.globMatch` (C01 compares that one with the real KEYS / SCAN MATCH on every run) —
+    `Lemmas/ShardsStr.lean` `globB_eq` — evaluated without the repeated recursive calls. -/
+def globB (p k : List Nat) : Bool := globFuelF (2 * (p.length + k.length) + 2) p k
 
 -- `k[0-9]` matches `k5`; an unclosed class runs to the end of the pattern (`k[0-` matches `k0`
 -- and `k-`, not itself); `[^]` is an EMPTY negated class: any one byte; an empty class matches
